@@ -119,6 +119,7 @@ package altair
 //@   panics off
 //@   opt weakcalls
 //@   opt inline=closures
+//@   assigns ghost(n_set_bal)
 //@   requires spec != nil && spec.SLOTS_PER_EPOCH != 0 && epc != nil && state != nil && attestation != nil && epc.Spec == spec && epc.ValidatorPubkeyCache != nil
 //@   requires tables: epc.PreviousEpoch != nil && epc.CurrentEpoch != nil && epc.NextEpoch != nil && sh_wf(epc.PreviousEpoch.Committees, spec.SLOTS_PER_EPOCH) && sh_wf(epc.CurrentEpoch.Committees, spec.SLOTS_PER_EPOCH) && sh_wf(epc.NextEpoch.Committees, spec.SLOTS_PER_EPOCH)
 //@   assigns anything
@@ -128,6 +129,12 @@ package altair
 //@   ensures source: err == nil ==> (old(attestation.Data.Target.Epoch) == st_slot(state) / spec.SLOTS_PER_EPOCH ==> !st_curjust_err(state) && old(attestation.Data.Source) == st_curjust(state)) && (old(attestation.Data.Target.Epoch) != st_slot(state) / spec.SLOTS_PER_EPOCH ==> !st_prevjust_err(state) && old(attestation.Data.Source) == st_prevjust(state))
 //@   ensures index: err == nil ==> (let te := old(attestation.Data.Target.Epoch) in (te == old(epc.PreviousEpoch.Epoch) ==> old(attestation.Data.Index) < old(len(epc.PreviousEpoch.Committees[0]))) && (te != old(epc.PreviousEpoch.Epoch) && te == old(epc.CurrentEpoch.Epoch) ==> old(attestation.Data.Index) < old(len(epc.CurrentEpoch.Committees[0]))) && (te != old(epc.PreviousEpoch.Epoch) && te != old(epc.CurrentEpoch.Epoch) ==> te == old(epc.NextEpoch.Epoch) && old(attestation.Data.Index) < old(len(epc.NextEpoch.Committees[0]))))
 //@   ensures indexed: err == nil ==> (exists ia IdxAttT :: idxatt_ok(spec, epc, state, ia) && ia.Data == old(attestation.Data) && ia.Signature == old(attestation.Signature))
+
+// the fork's penalty parameters (C02, C01): slashing penalty quotient, proportional slashing multiplier, inactivity penalty quotient
+//@ func (state *BeaconStateView) ForkSettings(spec) r
+//@   property C02 C01
+//@   requires spec != nil
+//@   ensures r != nil && r.MinSlashingPenaltyQuotient == spec.MIN_SLASHING_PENALTY_QUOTIENT_ALTAIR && r.ProportionalSlashingMultiplier == spec.PROPORTIONAL_SLASHING_MULTIPLIER_ALTAIR && r.InactivityPenaltyQuotient == spec.INACTIVITY_PENALTY_QUOTIENT_ALTAIR
 
 // BEGIN C18 generated (tools/gen_c18.py in /verif)
 // cancelled: a context cancelled before the call makes it fail; surfaced: a cancellation observed by a poll
@@ -146,6 +153,7 @@ package altair
 //@   loop *
 //@     invariant ctx_t >= old(ctx_t) && (old(ctx_seen) || !ctx_seen)
 //@     invariant ctx_t > old(ctx_t) ==> !ctx_cancelled(ctx, old(ctx_t))
+//@   assigns ghost(n_set_bal)
 
 //@ func ComputeEpochAttesterData(ctx, spec, epc, flats, state) (r0, err)
 //@   property C18
@@ -303,6 +311,7 @@ package altair
 //@   loop *
 //@     invariant ctx_t >= old(ctx_t) && (old(ctx_seen) || !ctx_seen)
 //@     invariant ctx_t > old(ctx_t) ==> !ctx_cancelled(ctx, old(ctx_t))
+//@   assigns ghost(n_set_bal)
 
 //@ func ProcessSyncCommitteeUpdates(ctx, spec, epc, state) err
 //@   property C18
@@ -335,6 +344,7 @@ package altair
 //@     invariant ctx_t > old(ctx_t) ==> !ctx_cancelled(ctx, old(ctx_t))
 //@   assigns ghost(n_set_score)
 //@   assigns ghost(n_biter), ghost(biter_pos), ghost(biter_reg), ghost(n_set_eb)
+//@   assigns ghost(n_set_bal)
 //@   assigns ghost(n_eth1_reset), ghost(n_slash_reset), ghost(last_slash_reset), ghost(n_set_mix), ghost(last_set_mix_epoch), ghost(last_set_mix), ghost(n_hist_update)
 //@   assigns ghost(n_set_prevjust), ghost(set_prevjust), ghost(n_set_curjust), ghost(set_curjust), ghost(n_set_fin), ghost(set_fin), ghost(n_set_jbits), ghost(set_jbits)
 //@   assigns ghost(n_viter), ghost(viter_pos), ghost(viter_reg), ghost(n_val_write), ghost(n_set_exit), ghost(set_exit_v), ghost(set_exit_val), ghost(n_set_wd), ghost(set_wd_v), ghost(set_wd_val)
@@ -353,6 +363,7 @@ package altair
 //@   loop *
 //@     invariant ctx_t >= old(ctx_t) && (old(ctx_seen) || !ctx_seen)
 //@     invariant ctx_t > old(ctx_t) ==> !ctx_cancelled(ctx, old(ctx_t))
+//@   assigns ghost(n_set_bal)
 //@   assigns ghost(n_set_mix), ghost(last_set_mix_epoch), ghost(last_set_mix)
 //@   assigns ghost(n_set_lhdr), ghost(set_lhdr)
 //@   assigns ghost(n_viter), ghost(viter_pos), ghost(viter_reg), ghost(n_val_write), ghost(n_set_exit), ghost(set_exit_v), ghost(set_exit_val), ghost(n_set_wd), ghost(set_wd_v), ghost(set_wd_val)
